@@ -352,6 +352,9 @@ func ruleC04(c *Ctx, r *Report) {
 	c04Parser(c, r)
 	c04SerialiserComplete(c, r)
 
+	// ---------------------------------------------------------------- R7 options are switched by their flags
+	flagDefaultsRule(c, r, "C04-R7")
+
 	// ---------------------------------------------------------------- R6 gate confinement
 	r.Floor("C04-R6", 3, "three dispatch sites")
 	allowedGate := map[string]bool{"c==COMMAND": true, "c==QUERY": true, "c==WRITE": true, "msg==Slow query": true}
